@@ -407,6 +407,7 @@ end Machine
                                             or `return undefined_name` for `badName`, or a lambda capturing four locals for `lam`)
       def attach(self, v: int) -> int: return v      (when `crash`: a free function with a `self` parameter)
       v: int = 0 / v: Nope = 0   (for every entry of `vars`; `false` = the annotation does not resolve)
+      print(n)                   (for every entry of `exprs`: expression statements, nothing is declared)
 
   `descLang` says which symbol keys ExpandModules inserts for such a module (calibrated against the real code by the
   `session` correspondence stream) and when the renderer succeeds. -/
@@ -439,6 +440,8 @@ structure Desc where
   /-- a module-level function whose first parameter is called `self`: collecting the variables of the functions dies with an
       unexpected exception (ValueError in the node model), which `Modules.load` turns into `Errors.Fatal` (modules.py:89-91) -/
   crash : Bool := false
+  /-- top-level expression statements `print(n)` after everything else: they declare nothing (no symbol key), the text shows them -/
+  exprs : List Nat := []
 deriving DecidableEq, Repr
 
 def rootQ : Str := ['f','i','l','e','_','i','n','p','u','t']
@@ -511,6 +514,9 @@ def descBody (p : ModPath) (ms : Methods) (look : Key → Option Str) : Str :=
 def descIncl (p : ModPath) (d : Desc) (look : Key → Option Str) : Str :=
   d.imports.flatMap (fun mn => (look (fullJoined p mn.2)).getD [] ++ [','])
 
+/-- the expression statements of the module in the text (no symbol is looked up for them) -/
+def descExprs (d : Desc) : Str := d.exprs.flatMap (fun n => 'e' :: Str.natToDec n)
+
 def descRender (p : ModPath) (nf : Str → Desc) (look : Key → Option Str) : Except Err Str × List Str × List Str :=
   let d := nf rootQ
   let ms := d.methods
@@ -520,7 +526,7 @@ def descRender (p : ModPath) (nf : Str → Desc) (look : Key → Option Str) : E
   else if !descOwnOk p ms look then (.error .fatal, [], [p])
   else if !descCallsOk ms look then (.error .unresolvedSymbol, [], [p])
   else if ms.any (fun cm => cm.2.badName) then (.error .unresolvedSymbol, [], [p])
-  else (.ok (p ++ ':' :: (descBody p ms look ++ descIncl p d look)), [], [])
+  else (.ok (p ++ ':' :: (descBody p ms look ++ descIncl p d look ++ descExprs d)), [], [])
 
 def descLang : Lang Desc Desc Desc Str Str where
   parse d := if d.syntaxOk then some d else none
